@@ -81,6 +81,7 @@ def run(ctx):
     n = 120 if ctx.tier == "quick" else 1500
     dec_lines, dec_meta = [], []
     enc_lines, enc_res, enc_meta = [], [], []
+    produced = []
     for i in range(n):
         transport = rng.choice(["jws", "jws", "jwe"])
         claims = rand_claims(rng)
@@ -135,6 +136,8 @@ def run(ctx):
         want_header = {"typ": "JWT", **hdr_snapshot}
         if form == "set":
             want_header["kid"] = "the-kid"
+        if got[0] == "ok" and form == "key":
+            produced.append((transport, tok, pk, kw))
         if got[0] != "ok":
             ctx.report(f"decoding an encoded JWT with the matching key failed: {got[1]}", {"header": hdr_snapshot, "claims": repr(claims)[:300], "transport": transport}, f"roundtrip:{transport}:failed")
             continue
@@ -168,6 +171,7 @@ def run(ctx):
             except wire.Unencodable:
                 pass
     model_encodes(ctx, enc_lines, enc_res, enc_meta)
+    tampered_transport(ctx, produced)
     not_object(ctx, dec_lines, dec_meta)
     answers = model_eval(dec_lines) if ctx.driver_ok else []
     for ln, (tok, pk, kw), m in zip(dec_lines, dec_meta, answers):
@@ -185,6 +189,58 @@ def run(ctx):
         if mo != impl and not _nan_eq(mo, impl):
             ctx.disagreements.append({"suite": "jwt-decode", "request": ln[:200], "model": repr(mo)[:300], "impl": repr(impl)[:300]})
     numeric_date(ctx)
+
+
+def tampered_transport(ctx, produced):
+    """Decoding returns only after the integrity check of the transport passed: every segment of encoded JWTs (JWS: 3,
+    JWE: 5) gets a bit flipped in its decoded octets, is cut by one octet / to half / to nothing, is extended, and is
+    swapped with the same segment of another token; `jwt.decode` must fail whenever the reference verifier / decryptor
+    rejects the received octets (and must never answer with the payload error, which would mean the payload was looked
+    at first)."""
+    from joserfc import jwt
+    rng = ctx.rng
+    sample = produced if len(produced) <= (40 if ctx.tier == "quick" else 300) else rng.sample(produced, 40 if ctx.tier == "quick" else 300)
+    by_transport = {"jws": [p for p in produced if p[0] == "jws"], "jwe": [p for p in produced if p[0] == "jwe"]}
+    for transport, tok, pk, kw in sample:
+        segs = tok.split(".")
+        variants = []
+        for i, sg in enumerate(segs):
+            raw = J.b64u_dec(sg.encode()) if sg else b""
+            if raw:
+                bit = rng.randrange(len(raw) * 8)
+                fl = bytearray(raw)
+                fl[bit // 8] ^= 1 << (bit % 8)
+                variants.append((f"flip-{i}", J.b64u(bytes(fl)).decode()))
+                variants.append((f"cut1-{i}", J.b64u(raw[:-1]).decode()))
+                variants.append((f"cutfront-{i}", J.b64u(raw[1:]).decode()))
+                variants.append((f"half-{i}", J.b64u(raw[: len(raw) // 2]).decode()))
+                variants.append((f"empty-{i}", ""))
+            variants.append((f"extend-{i}", J.b64u(raw + b"\x00").decode()))
+            others = [o for o in by_transport[transport] if o[1] != tok and len(o[1].split(".")) == len(segs)]
+            if others:
+                variants.append((f"splice-{i}", rng.choice(others)[1].split(".")[i]))
+        for label, newseg in variants:
+            i = int(label.rsplit("-", 1)[1])
+            if newseg == segs[i]:
+                continue
+            bad = ".".join(segs[:i] + [newseg] + segs[i + 1:])
+            try:
+                t = jwt.decode(bad, pk, **kw)
+                out = ("ok", t.claims)
+            except Exception as e:  # noqa: BLE001
+                out = ("err", err_name(e))
+            # reference verdict on the received octets
+            if transport == "jws":
+                ok = J.ref_accepts(J.VCase("compact", bad.encode(), pk))[0]
+            else:
+                ok = E.ref_verdict(E.DCase(bad.encode(), pk))[0] is not None
+            ctx.count("tampered-transport", (transport, label, bad[:60], bad[-30:]), True, f"{transport}:{label.split('-')[0]}:{'ok' if out[0] == 'ok' else out[1]}")
+            if out[0] == "ok" and not ok:
+                ctx.report(f"a JWT whose {transport.upper()} transport does not authenticate ({label}) was decoded: claims {str(out[1])[:80]}",
+                           {"token": bad, "original": tok, "key": J.key_desc(pk), "tamper": label}, f"integrity:{transport}:{label.split('-')[0]}")
+            elif out == ("err", "InvalidPayloadError") and not ok:
+                ctx.report(f"the payload was inspected although the {transport.upper()} integrity check should have failed first ({label})",
+                           {"token": bad, "tamper": label}, f"integrity-order:{transport}")
 
 
 DETERMINISTIC = ("HS256", "HS384", "HS512", "RS256", "RS384", "RS512", "EdDSA")
